@@ -38,8 +38,12 @@ Definition check_cross (c : list (list bool) * list (nat*nat) * list (nat*nat) *
 """
 
 
+TRANSLATORS = [('pyx_rewire', 'RewireK')]
+
+
 def theorems(ctx):
     ctx.modelled += MODELLED
+    ctx.generate(TRANSLATORS)
     ctx.theorems()
     if ctx.tier == "thorough":
         ctx.coqchk()
